@@ -348,6 +348,11 @@ pub async fn scenario_c08() {
 			// a blocking handler that panics with a long message: the reply is the library's fixed "Internal error"
 			let reply = format!("{{\"jsonrpc\":\"2.0\",\"id\":{id},\"error\":{{\"code\":-32603,\"message\":\"Internal error\"}}}}");
 			singles.push((id, format!("{{\"jsonrpc\":\"2.0\",\"id\":{id},\"method\":\"bpanicn\",\"params\":[{}]}}", target).into_bytes(), reply.len(), "panic".to_string(), true));
+		} else if rt::chance("error_message_result", 1, 8) {
+			// a handler error without data whose bulk is its message
+			let overhead = format!("{{\"jsonrpc\":\"2.0\",\"id\":{id},\"error\":{{\"code\":-32052,\"message\":\"\"}}}}").len();
+			let n = target.saturating_sub(overhead);
+			singles.push((id, format!("{{\"jsonrpc\":\"2.0\",\"id\":{id},\"method\":\"failmsg\",\"params\":[{n}]}}").into_bytes(), overhead + n, "failmsg".to_string(), true));
 		} else if rt::chance("error_result", 1, 5) {
 			// error result with data
 			let overhead = format!("{{\"jsonrpc\":\"2.0\",\"id\":{id},\"error\":{{\"code\":-32051,\"message\":\"big failure\",\"data\":\"\"}}}}").len();
@@ -478,6 +483,7 @@ pub async fn scenario_c08() {
 						(Ok((_, Ok(v))), false) if blob == "unsub-false" => *v == json!(false) && reply.len() == *len,
 						(Ok((_, Ok(v))), false) => v.as_str() == Some(blob.as_str()) && reply.len() == *len,
 						(Ok((_, Err(c))), true) if blob == "panic" => *c == -32603 && reply.len() == *len,
+						(Ok((_, Err(c))), true) if blob == "failmsg" => *c == -32052 && reply.len() == *len,
 						(Ok((_, Err(c))), true) if long_id.is_some() => *c == -32601 && reply.len() == *len,
 						(Ok((_, Err(c))), true) => *c == -32051 && reply.len() == *len,
 						_ => false,
